@@ -92,6 +92,34 @@ def build(tier, seed, exclude):
         err = _two(lambda: D.Any2(a=a), lambda: D.Any2(a=b), "frozenset of frozensets %r in orders %r / %r" % (elems, a._order, b._order))
         return T.fail(err) if err else True
     """, timeout=to * 2)
+    g.cond("h_dict_mixed_keys_order", "n: int, p1: int, p2: int, off: int", ["2 <= n <= 4 and 0 <= p1 < 24 and 0 <= p2 < 24 and 0 <= off < 4"], """
+        pool = [1, "1", None, "None", 2.5, "a", "2.5"]
+        keys = pool[T.real(off):T.real(off) + T.real(n)]
+        items = [(k, i) for i, k in enumerate(keys)]
+        d1 = dict(HH.permuted(items, p1))
+        d2 = dict(HH.permuted(items, p2))
+        err = _two(lambda: D.Any2(a=d1), lambda: D.Any2(a=d2), "dict with keys %r built in insertion orders %r / %r" % (keys, list(d1), list(d2)))
+        return T.fail(err) if err else True
+    """, timeout=to)
+    g.cond("h_session_history", "parent_first: bool, i: int", ["0 <= i < 3"], """
+        # the identity of a task must not depend on which other task classes were hashed earlier in the session
+        pool = ["x", "y1", "a.b"]
+        def classes():
+            P = shell.define("echo", inputs={"text": shell.arg(type=str, argstr="", position=1)}, name="Parent")
+            C = shell.define("echo", inputs={"text": shell.arg(type=str, argstr="--{text}", position=1)}, bases=[P], name="Child")
+            return P, C
+        HH.reset()
+        P1, C1 = classes()
+        alone = C1(text=pool[T.real(i)])._checksum
+        P2, C2 = classes()
+        if T.real(parent_first):
+            P2(text=pool[T.real(i)])._checksum
+        after = C2(text=pool[T.real(i)])._checksum
+        T.reach()
+        if alone != after:
+            return T.fail("the checksum of a derived task class depends on whether its base class was hashed earlier in the session")
+        return True
+    """, timeout=to)
     g.cond("h_nested_container_order", "v0: int, v1: int, p1: int, p2: int, q1: int, q2: int", ["0 <= p1 < 2 and 0 <= p2 < 2 and 0 <= q1 < 2 and 0 <= q2 < 2"], """
         def mk(p, q):
             inner = HH.OrdSet(["a", "b"]); inner._order = HH.permuted(["a", "b"], q)
